@@ -33,6 +33,8 @@ CLAIMED["C06"] = ("other", "Provenance of the scope in every expression context,
          "value-provenance over call sites + path facts at the lookup site + grammar class of the let production")
 CLAIMED["C03"] = ("other", "Join-kind table agreement parser/compiler/documentation, what is written per kind read off the derived grammar with path facts (DISTINCT, JOIN, LEFT JOIN), left index fixed before the recursion on the right-hand pipeline, bare-name rewrite and AND-fold shapes, $left/$right gate. Join result equality on databases is not decided.", "DESIGN.md §3 C03",
          "table agreement + path facts on the derived join-source grammar + AST shape rules")
+CLAIMED["C08"] = ("other", "Pairing rule for every split range (closed by endSplit, an explicit exhaustion test or a recorded error on every path), interprocedural not-found hygiene (a not-found error that can reach an isNotFound decision was produced before any token was consumed), and no production accepts the lexer's error token. 'Re-printing the tree gives back the token sequence' for all inputs is not decided.", "DESIGN.md §3 C08",
+         "typestate/pairing over an AST abstract interpreter + bottom-up production summaries to a fixpoint")
 NA = {}
 def main():
     props = [json.loads(l) for l in open('/verif/properties.jsonl')]
